@@ -28,6 +28,9 @@ type ErrSpec struct {
 	Msg   string          `json:"msg,omitempty"`
 	Data  json.RawMessage `json:"data,omitempty"`
 	Inner []ErrSpec       `json:"inner,omitempty"` // wrap / wrapcoder: one element; join: several
+	// EmptyData (rpcerror without data): the Data field is an empty slice that
+	// is not nil - as good as no data.
+	EmptyData bool `json:"empty_data,omitempty"`
 }
 
 type coderV struct{ c int }
@@ -52,6 +55,9 @@ func (e *wrapCoder) Unwrap() error       { return e.inner }
 func build(s ErrSpec) error {
 	switch s.Kind {
 	case "rpcerror":
+		if s.EmptyData && len(s.Data) == 0 {
+			return &jrpc2.Error{Code: jrpc2.Code(s.Code), Message: s.Msg, Data: json.RawMessage{}}
+		}
 		return &jrpc2.Error{Code: jrpc2.Code(s.Code), Message: s.Msg, Data: append(json.RawMessage(nil), s.Data...)}
 	case "errorf":
 		return jrpc2.Errorf(jrpc2.Code(s.Code), "%s", s.Msg)
@@ -393,9 +399,11 @@ func genSpec(t *rapid.T, depth int) ErrSpec {
 	}
 	switch s.Kind {
 	case "rpcerror", "errorf", "plain", "wrap":
-		s.Msg = rapid.SampledFrom([]string{"boom", "x", "é\n\"q\"", "[1] looks like a code", "context canceled", "50% off", "😀"}).Draw(t, "msg")
+		s.Msg = rapid.SampledFrom([]string{"boom", "x", "", "é\n\"q\"", "[1] looks like a code", "context canceled", "50% off", "😀"}).Draw(t, "msg")
 	}
-	if s.Kind == "rpcerror" && rapid.Bool().Draw(t, "data") {
+	if s.Kind == "rpcerror" && rapid.IntRange(0, 5).Draw(t, "emptydata") == 0 {
+		s.EmptyData = true
+	} else if s.Kind == "rpcerror" && rapid.Bool().Draw(t, "data") {
 		s.Data = json.RawMessage(rapid.SampledFrom([]string{`1`, `"s"`, `[1,2,{"a":null}]`, `{"k":"v"}`, `true`, `1e400`, `"é"`, `[]`}).Draw(t, "datav"))
 	}
 	switch s.Kind {
